@@ -28,17 +28,19 @@ class TestConstantFoldingIntegerAdditionPattern(RewritePattern):
         if not isinstance(op, AddiOp):
             return
 
-        # Ensure both operands are constants
-        lhs_op: ConstantOp = op.operands[0].op  # pyright: ignore
-        rhs_op: ConstantOp = op.operands[1].op  # pyright: ignore
-        assert lhs_op.has_trait(ConstantLike)  # pyright: ignore
-        assert rhs_op.has_trait(ConstantLike)  # pyright: ignore
+        # Ensure both operands are constants, leave the operation in place otherwise
+        lhs_op = op.operands[0].owner
+        rhs_op = op.operands[1].owner
+        if not isinstance(lhs_op, ConstantOp) or not isinstance(rhs_op, ConstantOp):
+            return
+        assert lhs_op.has_trait(ConstantLike)
+        assert rhs_op.has_trait(ConstantLike)
 
-        # Calculate the result of the addition
+        # Calculate the result of the addition, wrapping to the width of the type
         lhs: int = lhs_op.value.value.data  # pyright: ignore
         rhs: int = rhs_op.value.value.data  # pyright: ignore
         folded_op = ConstantOp(
-            IntegerAttr(lhs + rhs, op.result.type)  # pyright: ignore[reportCallIssue, reportArgumentType]
+            IntegerAttr(lhs + rhs, op.result.type, truncate_bits=True)  # pyright: ignore[reportCallIssue, reportArgumentType]
         )
 
         # Rewrite with the calculated result
